@@ -330,7 +330,7 @@ func initInt8() {
 	)
 	Def(
 		c,
-		"to_uint8",
+		"to_int8",
 		func(_ *Thread, args []value.Value) (value.Value, value.Value) {
 			return args[0], value.Undefined
 		},
